@@ -140,6 +140,18 @@ def _namespace(cfg):
                 a = cfg["args"]
                 _U["UnitSystem"](name, _base_unit(a[0]), _base_unit(a[1]), _base_unit(a[2]), temperature_unit=_base_unit(a[3]), angle_unit=_base_unit(a[4]), current_mks_unit=_base_unit(a[5]))
             reg = _U["UnitRegistry"](unit_system=name)
+        elif kind == "codereg":
+            # a registry with its own code units and a unit system made of them, bound to the registry
+            reg = _U["UnitRegistry"]()
+            syms = []
+            for dname, size, si in zip(("length", "mass", "time", "temperature"), cfg["sizes"], ("m", "kg", "s", "K")):
+                if size is None:
+                    syms.append(si)
+                else:
+                    reg.add("code_" + dname, float(size), getattr(_U["D"], dname))
+                    syms.append("code_" + dname)
+            name = "c15_" + cid
+            reg.unit_system = _U["UnitSystem"](name, syms[0], syms[1], syms[2], temperature_unit=syms[3], registry=reg)
         else:
             reg = _U["UnitRegistry"](unit_system=cfg["sys"])
         for sym, val, dimname in cfg.get("add", []):
@@ -329,9 +341,10 @@ def _rel(case):
     cfg = _C["configs"][case["cfg"] - 1]
     rel = _C["relations"][case["a"] - 1]
     ns, _reg = _namespace(cfg)
-    suf = SUFFIX[case["g"]]
     parts = []
-    for qi, e in rel["terms"]:
+    for k, (qi, e) in enumerate(rel["terms"]):
+        # mix1 / mix2: the participants wear alternating guises
+        suf = SUFFIX[case["g"]] if case["g"] in SUFFIX else ("_mks", "_cgs")[(k + (case["g"] == "mix2")) % 2]
         q = ns.get(_C["quantities"][qi - 1]["primary"] + suf)
         if not isinstance(q, _U["uq"]):
             return {"present": False}
@@ -361,14 +374,44 @@ def _rel(case):
     for q, e in parts:
         v *= _raw(q) ** e
     out["fm"] = _flag(v, 1.0) if math.isfinite(v) and v != 0.0 else NOFLAG
+    # (c) the identity as ONE quotient of two commensurable quantities, the pure number read by float(), .value and a ufunc
+    out["fqv"], out["qexc"] = NOFLAG, ""
+    if any(e > 0 for _q, e in parts) and any(e < 0 for _q, e in parts) and not out["off"]:
+        try:
+            num = [q**e for q, e in parts if e > 0]
+            den = [q ** (-e) for q, e in parts if e < 0]
+            out["fqv"] = _quotient_flags(_product(num), _product(den), 1.0 / coef)
+        except Exception as e:  # noqa: BLE001
+            out["qexc"] = type(e).__name__
     return out
+
+
+def _product(facs):
+    facs = list(facs)
+    acc = facs.pop(0)
+    while facs:
+        la = math.log10(abs(float(acc.value))) if float(acc.value) != 0 else 0.0
+        j = min(range(len(facs)), key=lambda i: abs(la + (math.log10(abs(float(facs[i].value))) if float(facs[i].value) != 0 else 0.0)))
+        acc = acc * facs.pop(j)
+    return acc
+
+
+def _quotient_flags(x, y, want):
+    """x / y is the pure number `want`: worst ladder flag over the ways a program consumes it"""
+    import numpy as np
+
+    r = x / y
+    worst = max(_flag(float(r), want), _flag(float(r.value), want), _flag(float(np.asarray(r)), want))
+    if abs(want) < 50:
+        worst = max(worst, _flag(float(np.exp(r)), math.exp(want)))
+    return worst
 
 
 def _unit(case):
     cfg = _C["configs"][case["cfg"] - 1]
     nm = _C["names"][case["a"] - 1]
     ns, reg = _namespace(cfg)
-    q = ns.get(nm["n"])
+    q = ns.get(nm["n"] + SUFFIX[case.get("g", "plain")])
     out = {"present": isinstance(q, _U["uq"])}
     if not out["present"]:
         return out
@@ -380,6 +423,17 @@ def _unit(case):
         return out
     out["ud"] = dim_vec(u.dimensions) or []
     out["cd"] = dim_vec(q.units.dimensions) or []
+    if case["route"] in ("quot", "quotinv"):
+        # 0.75 of the unit named X divided by the constant named X (and the inverse): a pure number, read as programs read it
+        if out["ud"] != out["cd"] or _mentions_offset_unit(q.units):
+            return {"present": False, "exc": "not-a-quotient-of-commensurable-scale-units"}
+        try:
+            x = _U["uq"](0.75, u)
+            out["f"] = _quotient_flags(x, q, 0.75) if case["route"] == "quot" else _quotient_flags(q, x, 4.0 / 3.0)
+        except Exception as e:  # noqa: BLE001
+            out["f"], out["exc"] = 10, type(e).__name__
+        out["eq"] = True
+        return out
     if out["ud"] == out["cd"]:
         out["f"] = _flag(float(u.base_value), _raw(q))
     else:  # a Gaussian guise against an SI unit (or the reverse): compare through the CGS<->SI route
@@ -391,6 +445,54 @@ def _unit(case):
         out["eq"] = bool((1 * u) == q)
     except Exception:  # noqa: BLE001
         out["eq"] = False
+    return out
+
+
+def _pair(case):
+    """the constant of configuration A against the same constant of configuration B, through one call form"""
+    import numpy as np
+
+    nm = _C["names"][case["a"] - 1]
+    nsa, _ra = _namespace(_C["configs"][case["cfg"] - 1])
+    nsb, _rb = _namespace(_C["configs"][case["cfg2"] - 1])
+    x, y = nsa.get(nm["n"]), nsb.get(nm["n"])
+    out = {"pa": isinstance(x, _U["uq"]), "pb": isinstance(y, _U["uq"]), "da": [], "db": [], "o": "none", "f": NOFLAG, "b": False, "exc": ""}
+    if not (out["pa"] and out["pb"]):
+        return out
+    out["da"], out["db"] = dim_vec(x.units.dimensions) or [], dim_vec(y.units.dimensions) or []
+    if out["da"] != out["db"]:
+        return out
+    form, yv = case["route"], float(y.value)
+    try:
+        if form == "to":
+            out["o"], out["f"] = "num", _flag(float(x.to(y.units).value), yv)
+        elif form == "in_units":
+            out["o"], out["f"] = "num", _flag(float(x.in_units(y.units).value), yv)
+        elif form == "to_value":
+            out["o"], out["f"] = "num", _flag(float(x.to_value(y.units)), yv)
+        elif form == "convert":
+            z = x.copy()
+            z.convert_to_units(y.units)
+            out["o"], out["f"] = "num", _flag(float(z.value), yv)
+        elif form == "arr":
+            # coercion into one array: both entries are shown in the first one's unit
+            z = _U["unyt"].unyt_array([y, x])
+            out["o"], out["f"] = "num", max(_flag(float(z[1].value), yv), _flag(float(z[0].value), yv))
+        elif form == "div":
+            out["o"], out["f"] = "num", _quotient_flags(x, y, 1.0)
+        elif form == "sub":
+            d = x - y
+            out["o"], out["f"] = "num", _flag(float(x.value) + float(d.value), float(x.value))
+        elif form == "allclose":
+            out["o"], out["b"] = "bool", bool(_U["unyt"].allclose_units(x, y, rtol=1e-13)) and bool(_U["unyt"].allclose_units(y, x, rtol=1e-13))
+        elif form == "isclose":
+            out["o"], out["b"] = "bool", bool(np.isclose(x, y, rtol=1e-13, atol=0.0))
+        else:
+            raise ValueError(form)
+    except Exception as e:  # noqa: BLE001 - the exception is the observation
+        if isinstance(e, ValueError) and str(e) == form:
+            raise
+        out["o"], out["exc"] = "exc", type(e).__name__
     return out
 
 
@@ -408,7 +510,7 @@ def _lit(case):
 
 def observe(case):
     k = case["kind"]
-    o = {"guise": _guise, "rel": _rel, "unit": _unit, "lit": _lit}[k](case)
+    o = {"guise": _guise, "rel": _rel, "unit": _unit, "lit": _lit, "pair": _pair}[k](case)
     o["case"] = case
     return o
 
